@@ -28,14 +28,14 @@ type replayCase struct {
 }
 
 type replayOutcome struct {
-	Available bool
-	Reason    string
-	Cases     []*replayCase
-	Failing   *replayCase
-	FailWhat  string
-	Ran       int
+	Available  bool
+	Reason     string
+	Cases      []*replayCase
+	Failing    *replayCase
+	FailWhat   string
+	Ran        int
 	Transcript string
-	TestSrc   string
+	TestSrc    string
 }
 
 var replayCache = map[string]*replayOutcome{}
